@@ -11,6 +11,7 @@ from fractions import Fraction
 import numpy as _np
 
 from .explorer import cur, unsupported, SymBool
+from .scalar import C
 from . import apoly as A
 from . import symtorch as st
 
@@ -22,23 +23,34 @@ STATS = {'svd_structural': 0, 'qr_gs': 0, 'havoc': 0}
 
 
 def _is0(v):
+    if isinstance(v, C):
+        return A.is_structural_zero(v.re) and A.is_structural_zero(v.im)
+    if isinstance(v, complex):
+        return v == 0
     return A.is_structural_zero(v)
 
 
 def _check_entries(a):
     for v in a.flat:
-        if isinstance(v, A.P):
-            continue
-        if A._num(v) is not None:
-            continue
-        unsupported('factorization of non A-scalar data (%s)' % type(v).__name__)
+        for w in ((v.re, v.im) if isinstance(v, C) else (v,)):
+            if isinstance(w, A.P):
+                continue
+            if A._num(w) is not None:
+                continue
+            unsupported('factorization of non A-scalar data (%s)' % type(w).__name__)
 
 
 def _support(vec):
     return frozenset(j for j, v in enumerate(vec) if not _is0(v))
 
 
-def _sq(v):
+def _conj(v):
+    return v.conjugate() if isinstance(v, C) else v
+
+
+def _abs2(v):
+    if isinstance(v, C):
+        return v.re * v.re + v.im * v.im
     return v * v
 
 
@@ -46,13 +58,20 @@ def _norm2(vec):
     s = 0
     for v in vec:
         if not _is0(v):
-            s = s + v * v
+            s = s + _abs2(v)
     return s
 
 
 def _size_guard(v):
-    if isinstance(v, A.P) and len(v.t) > MAX_TERMS:
-        unsupported('expression blow-up in the factorization model (%d terms)' % len(v.t))
+    for w in ((v.re, v.im) if isinstance(v, C) else (v,)):
+        if isinstance(w, A.P) and len(w.t) > MAX_TERMS:
+            unsupported('expression blow-up in the factorization model (%d terms)' % len(w.t))
+
+
+def _real_dtype(dt):
+    if dt.is_complex:
+        return st.float64 if dt.bits == 128 else st.float32
+    return dt
 
 
 def _obj(shape, fill=0):
@@ -137,8 +156,6 @@ def svd(t, full_matrices=True):
         STATS['havoc'] += 1
         sdt = t.dtype if not t.dtype.is_complex else (st.float64 if t.dtype.bits == 128 else st.float32)
         return (st._fresh_tensor((m, k), t.dtype, 'svdU'), st._fresh_tensor((k,), sdt, 'svdS'), st._fresh_tensor((k, n), t.dtype, 'svdV'))
-    if t.dtype.is_complex:
-        unsupported('exact svd model for complex dtype')
     _check_entries(t.a)
     if m == 0 or n == 0:
         unsupported('svd of an empty matrix')
@@ -151,7 +168,7 @@ def svd(t, full_matrices=True):
         r = (Vt.T, S, Ut.T)
     STATS['svd_structural'] += 1
     U, S, V = r
-    return st.Tensor(U, t.dtype), st.Tensor(S, t.dtype), st.Tensor(V, t.dtype)
+    return st.Tensor(U, t.dtype), st.Tensor(S, _real_dtype(t.dtype)), st.Tensor(V, t.dtype)
 
 
 def qr(t, mode='reduced'):
@@ -162,14 +179,16 @@ def qr(t, mode='reduced'):
     if MODE == 'havoc':
         STATS['havoc'] += 1
         return st._fresh_tensor((m, k), t.dtype, 'qrQ'), st._fresh_tensor((k, n), t.dtype, 'qrR')
-    if t.dtype.is_complex:
-        unsupported('exact qr model for complex dtype')
     _check_entries(t.a)
     if m == 0 or n == 0:
         unsupported('qr of an empty matrix')
     M = t.a
     from . import autograd
     tracked = autograd.ENABLED and (t.requires_grad or t.grad_fn is not None)
+    if tracked and t.dtype.is_complex:
+        unsupported('qr of a tracked complex tensor')
+    if m == 1 and not tracked and not SIGNS:
+        return _qr_one_row(t)
     Q = _obj((m, k))
     R = _obj((k, n))
     qs = []
@@ -183,7 +202,7 @@ def qr(t, mode='reduced'):
                 r = 0
                 for i in range(m):
                     if not _is0(q[i]) and not _is0(col[i]):
-                        r = r + q[i] * col[i]
+                        r = r + _conj(q[i]) * col[i]
                 if _is0(r):
                     continue
                 _size_guard(r)
@@ -214,8 +233,8 @@ def qr(t, mode='reduced'):
                     if any(not _is0(qo[i]) for oi, qo in enumerate(qs) if oi != ci for i in sup):
                         continue
                     q = [0] * m
-                    q[sup[0]] = qc[sup[1]]
-                    q[sup[1]] = -qc[sup[0]]
+                    q[sup[0]] = _conj(qc[sup[1]])
+                    q[sup[1]] = -_conj(qc[sup[0]])
                     rotated.add(ci)
                     qs.append(q)
                     done = True
@@ -243,7 +262,7 @@ def qr(t, mode='reduced'):
                 r = 0
                 for i in range(m):
                     if not _is0(q[i]) and not _is0(col[i]):
-                        r = r + q[i] * col[i]
+                        r = r + _conj(q[i]) * col[i]
                 R[c, j] = r
     while len(qs) < k:
         free = [i for i in range(m) if all(_is0(q[i]) for q in qs)]
@@ -256,6 +275,31 @@ def qr(t, mode='reduced'):
         for i in range(m):
             Q[i, c] = q[i]
     STATS['qr_gs'] += 1
+    return st._mk(Q, t.dtype, (t,)), st._mk(R, t.dtype, (t,))
+
+
+def _qr_one_row(t):
+    """QR of a 1 x n matrix exactly as LAPACK computes it (the only case where the code under test can observe the
+    factor's sign/phase without any other factor compensating): real: no reflector, Q = [1], R = M.  complex (zlarfg):
+    Q = [1] if Im(alpha) == 0, otherwise beta = -sign(Re alpha) |alpha|, Q = [alpha / beta], R = conj(Q) M with R_00 = beta."""
+    M = t.a
+    n = M.shape[1]
+    Q = _obj((1, 1))
+    R = _obj((1, n))
+    alpha = M[0, 0]
+    STATS['qr_gs'] += 1
+    if not isinstance(alpha, C) or _is0(alpha) or (alpha.im == 0):
+        Q[0, 0] = 1
+        for j in range(n):
+            R[0, j] = M[0, j]
+        return st._mk(Q, t.dtype, (t,)), st._mk(R, t.dtype, (t,))
+    mod = A.sqrt(_abs2(alpha), assume_pos=True)
+    beta = -mod if (alpha.re >= 0) else mod
+    u = alpha / beta
+    Q[0, 0] = u
+    R[0, 0] = beta
+    for j in range(1, n):
+        R[0, j] = _conj(u) * M[0, j]
     return st._mk(Q, t.dtype, (t,)), st._mk(R, t.dtype, (t,))
 
 
